@@ -9,7 +9,7 @@ import (
 //verif:unwind 32
 //verif:maxconcretize 16
 //verif:maxdecisions 4000
-//verif:maxpaths quick=30000 thorough=120000
+//verif:maxpaths quick=30000 thorough=600000
 
 func verifC06Turns() int {
 	if verifTier() == 1 {
